@@ -2,6 +2,7 @@
 // automaton, and which recorder Router::route picks from the trie's answer (metrics-util/src/layers/{filter,router}.rs).
 #![allow(unused_imports, dead_code, unused_variables, unused_mut)]
 use vstd::prelude::*;
+use vstd::string::*;
 
 verus! {
 
@@ -135,6 +136,60 @@ impl Router {
         // registered under the LONGEST such route
         *r == (if !self.global_mask.names(kind) { *self.default }
                else { match search_routes.longest_prefix(key@) { Some(i) => *self.targets@[i as int], None => *self.default } }),
+//@END
+}
+
+// ------------------------------------------------------------------ Prefix: the two name builders (any strings)
+// ASSUMED std contract: an empty string (capacity is not observable)
+pub assume_specification[ String::with_capacity ](n: usize) -> (s: String)
+    ensures s@ == Seq::<char>::empty();
+#[verifier::external_body] pub struct SharedString { _p: [u8; 0] }
+impl SharedString {
+    pub uninterp spec fn view(&self) -> Seq<char>;
+    /// ASSUMED (Rust allocation limit): a str is at most isize::MAX bytes long; `len` is the UTF-8 byte length
+    pub uninterp spec fn blen(&self) -> usize;
+    #[verifier::external_body] pub fn len(&self) -> (n: usize) ensures n == self.blen(), n <= isize::MAX as usize { unimplemented!() }
+    #[verifier::external_body] pub fn as_ref(&self) -> (r: &str) ensures r@ == self@ { unimplemented!() }
+}
+#[verifier::external_body] pub struct LabelsIter<'a> { _p: core::marker::PhantomData<&'a u8> }
+#[verifier::external_body] pub struct Label { _p: [u8; 0] }
+#[verifier::external_body] pub struct Key { _p: [u8; 0] }
+#[verifier::external_body] pub struct KeyName { _p: [u8; 0] }
+pub uninterp spec fn str_blen(s: &str) -> usize;
+#[verifier::external_body]
+pub fn shim_str_len(s: &str) -> (n: usize) ensures n == str_blen(s), n <= isize::MAX as usize { unimplemented!() }
+impl<'a> LabelsIter<'a> { pub uninterp spec fn items(&self) -> Seq<Label>; }
+impl Key {
+    pub uninterp spec fn spec_name(&self) -> Seq<char>;
+    pub uninterp spec fn spec_labels(&self) -> Seq<Label>;
+    #[verifier::external_body] pub fn name(&self) -> (r: &str) ensures r@ == self.spec_name() { unimplemented!() }
+    #[verifier::external_body] pub fn labels(&self) -> (r: LabelsIter<'_>) ensures r.items() == self.spec_labels() { unimplemented!() }
+    #[verifier::external_body]
+    pub fn from_parts(name: String, labels: LabelsIter<'_>) -> (r: Key) ensures r.spec_name() == name@, r.spec_labels() == labels.items() { unimplemented!() }
+}
+impl KeyName {
+    pub uninterp spec fn view(&self) -> Seq<char>;
+    #[verifier::external_body] pub fn as_str(&self) -> (r: &str) ensures r@ == self@ { unimplemented!() }
+}
+impl From<String> for KeyName {
+    #[verifier::external_body] fn from(s: String) -> (r: KeyName) ensures r@ == s@ { unimplemented!() }
+}
+#[verifier::reject_recursive_types(R)]
+//@ITEM file=metrics-util/src/layers/prefix.rs sel=struct Prefix
+//@END
+impl<R> Prefix<R> {
+    /// `<prefix>.<name>`
+    pub open spec fn prefixed(prefix: Seq<char>, name: Seq<char>) -> Seq<char> { prefix + seq!['.'] + name }
+//@ITEM file=metrics-util/src/layers/prefix.rs sel=impl<R> Prefix<R> :: fn prefix_key ret=r
+// R35: `S.len()` on a `&str` expression -> shim_str_len(S) (byte length; only used for the capacity hint, bounded by isize::MAX)
+//@REWRITE R35 key.name().len() ==> shim_str_len(key.name())
+//@SPEC
+    ensures r.spec_name() == Self::prefixed(self.prefix@, key.spec_name()), r.spec_labels() == key.spec_labels(),
+//@END
+//@ITEM file=metrics-util/src/layers/prefix.rs sel=impl<R> Prefix<R> :: fn prefix_key_name ret=r
+//@REWRITE R35 key_name.as_str().len() ==> shim_str_len(key_name.as_str())
+//@SPEC
+    ensures r@ == Self::prefixed(self.prefix@, key_name@),
 //@END
 }
 
